@@ -1,6 +1,8 @@
 package props
 
 import (
+	"io"
+	"testing/iotest"
 	"bytes"
 	"fmt"
 	"math/bits"
@@ -633,7 +635,7 @@ func checkSaveLoadCase(c saveLoadCase, rec *Rec) error {
 			b := blobs[op.I]
 			l := &live{pos: b.pos, done: b.done, bad: new(error)}
 			pre, post := c.Cfg.pruneFuncs(l.bad)
-			if p := try(func() { l.it = search.Load(bytes.NewReader(append([]byte{}, b.data...)), pre, post) }); p != nil {
+			if p := try(func() { l.it = search.Load(chunkedReader(append([]byte{}, b.data...), len(b.data)+op.I+l.pos), pre, post) }); p != nil {
 				return fmt.Errorf("%s: Load of the state saved at position %d panicked: %v", desc, b.pos, p)
 			}
 			iters = append(iters, l)
@@ -668,7 +670,7 @@ func checkSaveLoadCase(c saveLoadCase, rec *Rec) error {
 	for bi, b := range blobs {
 		l := &live{pos: b.pos, done: b.done, bad: new(error)}
 		pre, post := c.Cfg.pruneFuncs(l.bad)
-		if p := try(func() { l.it = search.Load(bytes.NewReader(b.data), pre, post) }); p != nil {
+		if p := try(func() { l.it = search.Load(chunkedReader(b.data, len(b.data)/3), pre, post) }); p != nil {
 			return fmt.Errorf("%s: re-loading blob %d panicked: %v", desc, bi, p)
 		}
 		if err := advance(-1-bi, l, len(ref)+2); err != nil {
@@ -721,7 +723,7 @@ func checkSaveEveryPosition(c saveEveryCase, rec *Rec) error {
 		var bad2 error
 		pre2, post2 := c.Cfg.pruneFuncs(&bad2)
 		var ld *search.GraphIterator
-		if p := try(func() { ld = search.Load(bytes.NewReader(buf.Bytes()), pre2, post2) }); p != nil {
+		if p := try(func() { ld = search.Load(chunkedReader(buf.Bytes(), k), pre2, post2) }); p != nil {
 			return fmt.Errorf("%s: Load at position %d panicked: %v", desc, k, p)
 		}
 		for pos := min(k, len(ref)); ; pos++ {
@@ -825,4 +827,19 @@ func init() {
 	RegisterEnum("C04_save_at_every_position",
 		"enumeration: for every (n <= 5 quick / 6 thorough, m <= 3, a < m, predicate none / triangle-free) Save is called at EVERY position k = 0..len(output)+1 (before the first Next, after each graph, after exhaustion); the loaded iterator must yield exactly the remaining graphs and the original must continue undisturbed. Thorough adds every position of the bipartite search and of the search for graphs without an independent set of size 3 on 10 vertices (5479 and 12172 graphs; the latter has 9-vertex parents of minimum degree >= 4, hence path counters above 255); there the loaded iterator is compared on its next 300 graphs at every position and drained at every 16th. Complete over save positions for those configurations.",
 		true, Budget{Shards: 1}, Budget{Shards: 8}, enumSaveEvery, checkSaveEveryPosition)
+}
+
+// chunkedReader delivers the saved bytes the way different io.Readers would: all at once (bytes.Reader), one byte per
+// Read, half of what was asked for, or the last bytes together with io.EOF; which one depends on variant.
+func chunkedReader(data []byte, variant int) io.Reader {
+	r := bytes.NewReader(data)
+	switch variant % 4 {
+	case 1:
+		return iotest.OneByteReader(r)
+	case 2:
+		return iotest.HalfReader(r)
+	case 3:
+		return iotest.DataErrReader(r)
+	}
+	return r
 }
